@@ -456,8 +456,11 @@ def run(repo, rep, tier):
             continue
         r1.sites += 1
         r1.functions.update([eqf.fq, hf.fq])
-        eqt, eprob = eq_table(eqf)
-        ht = hash_table(hf)
+        # with private helpers inlined: it does not matter whether the
+        # comparison chain is written in place or split into helpers
+        from ..inline import Flat
+        eqt, eprob = eq_table(Flat(eqf))
+        ht = hash_table(Flat(hf))
         for node, why in eprob:
             rep.finding(r1, eqf.qualname, norm(node), 'eq-operands', path,
                         node.lineno, why)
